@@ -22,7 +22,7 @@ func init() {
 			"R01-alloc — the number-boxing allocator only appends to its page and replaces it by a fresh one, preloads is written only by init; R01-emit — every opcode the compiler emits is emitted through the encoder matching its declared format and every opcode has an emission site. " +
 			"R01-assign — in the compiler every shortcut that stores into an assignment target, or leaves a local to be read in place, while right-hand sides are still being compiled is guarded by 'exactly one target' (multiple assignment evaluates everything before any store); R01-operands — in every VM handler all RK operand reads precede the handler's first register write (an operand may live in the destination register, or in a register the handler also writes); R01-threading — the jump-threading pass, which patches in place in ascending pc order and follows chains through the live code, interprets an sBx as a label only for a word at or after the current pc (earlier words are already patched and hold distances); R01-peephole — a peephole that removes or retargets the last emitted MOVE/LOADK tests that word's destination register as well as its opcode (the last word may be a capture pseudo-instruction of a CLOSURE or the load of another register); R01-callregs — a call is laid out in fresh registers starting at the caller-supplied temporary (never in the register of an existing local, which the callee expression or the arguments may still read), and the explist of a generic for is assigned to exactly the three hidden variables; R01-kmv — an operand obtained through constant propagation (it may be an RK-encoded constant index) is emitted only in operand positions that the VM handler of that opcode reads with rkValue/rkString, never in an A field or a plain register operand; R01-constructor — in a table constructor a SETLIST is open-ended (B = 0) only when the last field is a positional call or '...', and the count of items waiting in registers is reset by every SETLIST, so a keyed field cannot trigger a second store of a batch; a single value taken from '...' into an existing local goes through a temporary (VARARG moves the stack top); R15-mathmap luaModulo shape shared (the % operator's sign adjustment). R07-parallel shared — every store of a code word is paired with the store of its line ('on which line it fails'). NOT decided: that the instruction sequence emitted for a statement/expression computes the Lua result (register allocation, jump threading, coercions, evaluation order) — a statement about run-time values.",
 		Trusted: []string{"opcode semantics are those of the handler bodies; only the encoding/decoding agreement is checked"},
-		Rules:   []func(*Ctx){ruleOptable, ruleLayout, ruleDecode, ruleFold, ruleAlloc, ruleEmit, ruleOperandOrder, ruleModuloSign, ruleAssign, ruleThreading, rulePeephole, ruleCallFrameRegs, ruleKmvFlow, ruleConstructor, ruleForCoercion, ruleCaptureWords, ruleParallel, ruleConstSign, ruleLogicalStore, ruleForContinuesUnlessNil, ruleScopeExitCompiler, ruleFlagTime, ruleSetlistBatchNumber, ruleOneReader},
+		Rules:   []func(*Ctx){ruleAssignResultsByPosition, ruleOptable, ruleLayout, ruleDecode, ruleCompilerDecodes, ruleFold, ruleAlloc, ruleEmit, ruleOperandOrder, ruleModuloSign, ruleAssign, ruleThreading, rulePeephole, ruleCallFrameRegs, ruleKmvFlow, ruleConstructor, ruleForCoercion, ruleCaptureWords, ruleParallel, ruleConstSign, ruleLogicalStore, ruleForContinuesUnlessNil, ruleScopeExitCompiler, ruleFlagTime, ruleSetlistBatchNumber, ruleOneReader},
 	})
 }
 
@@ -1810,4 +1810,49 @@ func ruleForCoercion(c *Ctx) {
 		return
 	}
 	c.check(len(callsTo(o.Handler, pn)) > 0, R, "OP_FORPREP:converts-string-control-values", p.pos(o.Handler.Pos()), "strings are converted with parseNumber before the number tests", "the FORPREP handler accepts numbers only: `for i = '1', 2 do` raises 'for statement init must be a number' although Lua 5.1 converts the string")
+	// all three control values, whatever the others are: the conversion loop is left only by its own
+	// count (i < 3) — no other condition ends it early or skips it (the limit is converted nowhere else,
+	// FORLOOP only tests its type)
+	g := p.G(o.Handler)
+	var loop *loopInfo
+	for _, cl := range callsTo(o.Handler, pn) {
+		for _, li := range g.loops() {
+			if li.Body[cl.Block()] && (loop == nil || len(li.Body) < len(loop.Body)) {
+				loop = li
+			}
+		}
+	}
+	if loop == nil {
+		c.bad(R, "OP_FORPREP:converts-all-three-control-values", p.pos(o.Handler.Pos()), "the conversion of the control values is not a loop over them")
+		return
+	}
+	okc, why := true, ""
+	for b := range loop.Body {
+		for _, s := range g.Succs(b) {
+			if loop.Body[s] {
+				continue
+			}
+			// an exit edge: only the header's count test may leave
+			iff, isIf := b.Instrs[len(b.Instrs)-1].(*ssa.If)
+			if b != loop.Header || !isIf {
+				okc, why = false, "the loop is left from a block other than its count test"
+				continue
+			}
+			bo, isB := iff.Cond.(*ssa.BinOp)
+			if !isB {
+				okc, why = false, "the loop's exit test is not a comparison of its counter"
+				continue
+			}
+			k, isK := constInt(bo.Y)
+			if _, isPhi := bo.X.(*ssa.Phi); !isPhi || !isK || k < 3 || bo.Op != token.LSS {
+				okc, why = false, "the loop's exit test is not `counter < 3`"
+			}
+		}
+	}
+	// …and the loop is entered unconditionally in the handler: its header's entering edge carries no condition
+	for _, cd := range g.CondsAt(loop.Header) {
+		_ = cd
+		okc, why = false, "the conversion loop is entered only under a condition"
+	}
+	c.check(okc, R, "OP_FORPREP:converts-all-three-control-values", p.pos(loop.Header.Instrs[0].Pos()), "the conversion loop runs for i = 0, 1, 2 unconditionally", "the FORPREP handler does not convert all three control values unconditionally ("+why+"): a numeric-string limit next to a numeric init and step stays a string, and FORLOOP raises 'for statement limit must be a number' for `for i = 1, \"3\" do`")
 }
